@@ -307,6 +307,16 @@ def run(prog, rep):
     ins = [c for c in calls_in(gp.node) if isinstance(c.func, ast.Attribute) and c.func.attr in ("insert", "append", "appendleft")]
     steps = [n for n in gg.nodes if n.kind == "stmt" and isinstance(n.ast, ast.Assign) and isinstance(n.ast.value, ast.Attribute)
              and n.ast.value.attr in ("parent", "_parent") and unparse(n.ast.value.value) == unparse(n.ast.targets[0])]
+    if not steps:
+        # the step through a second local: `above = node.parent ... node = above`
+        def via_local(n):
+            if not (n.kind == "stmt" and isinstance(n.ast, ast.Assign) and len(n.ast.targets) == 1 and isinstance(n.ast.targets[0], ast.Name)
+                    and isinstance(n.ast.value, ast.Name)):
+                return False
+            ds = [d for d in reaching_defs(gg, n, n.ast.value.id)]
+            vals = [def_value(d, n.ast.value.id) if d.kind != "entry" else None for d in ds]
+            return bool(vals) and all(v is not None and unparse(v) in ("%s.parent" % n.ast.targets[0].id, "%s._parent" % n.ast.targets[0].id) for v in vals)
+        steps = [n for n in gg.nodes if via_local(n)]
     front = any(c.func.attr == "insert" and c.args and isinstance(c.args[0], ast.Constant) and c.args[0].value == 0 for c in ins) or \
         any(c.func.attr == "appendleft" for c in ins) or \
         (any(c.func.attr == "append" for c in ins) and any(call_name(c) == "reversed" or (isinstance(c.func, ast.Attribute) and c.func.attr == "reverse") for c in calls_in(gp.node)))
@@ -392,7 +402,33 @@ def run(prog, rep):
 
         def clm(leaf, br, mx=mx, mi=mi, it=it, key=key):
             return "M" if ct(leaf, br, mx, mi) == "_matches(EACH(%s), %s)" % (it, key) else None
-        ok = ok and t == "EACH(%s)" % it and known(mg, n, clm, lambda a: a["M"], ["M"], with_node=True)
+        direct = t == "EACH(%s)" % it and known(mg, n, clm, lambda a: a["M"], ["M"], with_node=True)
+        if not direct and isinstance(n.ast.value, ast.Name):
+            # the sentinel idiom: `hit = <sentinel>`, the loop binds `hit = <element>` under the match and stops; `hit is <sentinel>` raises
+            from ..logic import must_cross
+            v = n.ast.value.id
+            direct = True
+            n_elem = 0
+            for d in reaching_defs(mg, n, v):
+                dv = def_value(d, v) if d.kind != "entry" else None
+                if dv is None:
+                    direct = False
+                elif isinstance(dv, ast.Name) and len(mi.module.assigns.get(dv.id, [])) == 1 and unparse(mi.module.assigns[dv.id][0]) == "object()":
+                    sent = dv.id
+
+                    def excluded(src, kind, dst, v=v, sent=sent):
+                        if src.kind != "branch" or kind not in ("true", "false"):
+                            return False
+                        tt = unparse(src.ast.test)
+                        return (tt == "%s is %s" % (v, sent) and kind == "false") or (tt == "%s is not %s" % (v, sent) and kind == "true")
+                    if not must_cross(mg, n, excluded, start=d):
+                        direct = False
+                elif mx.text(dv, d) == "EACH(%s)" % it and known(mg, d, clm, lambda a: a["M"], ["M"], with_node=True):
+                    n_elem += 1
+                else:
+                    direct = False
+            direct = direct and n_elem >= 1
+        ok = ok and direct
     raises = [n for n in mg.nodes if n.kind == "raise"]
     ok = ok and len(raises) >= 1 and all(isinstance(r.ast.exc, ast.Call) and call_name(r.ast.exc) == "ValueError" for r in raises)
     rep.check(ok, "PATH-2", "_match_iterable returns the first matching element or raises ValueError", "ok",
@@ -421,18 +457,21 @@ def run(prog, rep):
     fr = S.lookup_method("find_related")
     rep.saw_function(fr)
     _found_objects_rule(rep, fr, "FIND-2", relation_flags=("children", "siblings", "parents"))
-    recs = [c for c in calls_in(fr.node) if isinstance(c.func, ast.Attribute) and c.func.attr == "find_related"]
+    recs = [(fr, c) for c in calls_in(fr.node) if isinstance(c.func, ast.Attribute) and c.func.attr == "find_related"]
+    dgen = _delegated_generator(fr)
+    if dgen is not None:
+        recs += [(dgen, c) for c in calls_in(dgen.node) if isinstance(c.func, ast.Attribute) and c.func.attr == "find_related"]
     rep.floor("FIND-2", len(recs), 1, "recursive find_related calls")
     cp = fr.params[1:]
-    for c in recs:
+    for _rf, c in recs:
         kws = dict((k.arg, unparse(k.value)) for k in c.keywords if k.arg)
         for i, a in enumerate(c.args):
             if i < len(cp):
                 kws.setdefault(cp[i], unparse(a))
         rep.check(kws.get("siblings") == "False" and kws.get("parents") == "False", "FIND-2", "the recursion searches descendants only", str(kws),
                   "the recursive find_related call passes siblings=%s, parents=%s: the search leaves the requested relation" % (kws.get("siblings"), kws.get("parents")),
-                  where(fr, c), witness="find_related(children=True, siblings=False, parents=False) returns the start section's sibling or itself")
-    parent_walk_rule(rep, fr, "FIND-4")
+                  where(_rf, c), witness="find_related(children=True, siblings=False, parents=False) returns the start section's sibling or itself")
+    parent_walk_rule(rep, dgen if dgen is not None else fr, "FIND-4")
     # what "exactly one object" and "exactly the tree" rest on: sibling names are unique (C04) and every object is listed by one parent (C03)
     from ..report import import_verdicts
     import_verdicts(prog, rep, "C04", ("DOM-3", "DOM-4"), "UNIQ-I",
@@ -493,7 +532,61 @@ def _comprehension_of_matches(e, me):
     return None
 
 
-def _found_objects_rule(rep, f, rule, relation_flags):
+def _delegated_generator(f):
+    """the private generator method G when every result of f is next(self.G(...), None) / list(self.G(...)) [or None]; else None"""
+    from ..symtext import _is_private_helper_call
+    rets = [n.value for n in walk_no_nested(f.node) if isinstance(n, ast.Return) and n.value is not None
+            and not (isinstance(n.value, ast.Constant) and n.value.value is None)]
+    gens = set()
+    for v in rets:
+        core = v.values[0] if isinstance(v, ast.BoolOp) and isinstance(v.op, ast.Or) and len(v.values) == 2 \
+            and isinstance(v.values[1], ast.Constant) and v.values[1].value is None else v
+        call = None
+        if isinstance(core, ast.Call) and isinstance(core.func, ast.Name) and core.func.id == "next" and len(core.args) == 2 \
+                and isinstance(core.args[1], ast.Constant) and core.args[1].value is None:
+            call = core.args[0]
+        elif isinstance(core, ast.Call) and isinstance(core.func, ast.Name) and core.func.id == "list" and len(core.args) == 1:
+            call = core.args[0]
+        elif isinstance(core, ast.Name):
+            # a local bound once to list(self.G(...))
+            defs = [st.value for st in walk_no_nested(f.node) if isinstance(st, ast.Assign) and len(st.targets) == 1
+                    and isinstance(st.targets[0], ast.Name) and st.targets[0].id == core.id]
+            if len(defs) == 1 and isinstance(defs[0], ast.Call) and isinstance(defs[0].func, ast.Name) and defs[0].func.id == "list" and len(defs[0].args) == 1:
+                call = defs[0].args[0]
+        if isinstance(call, ast.Name):
+            # the generator object kept in a local: `found = self._iter(...)` ... `next(found, None)` / `list(found) or None`
+            defs = [st.value for st in walk_no_nested(f.node) if isinstance(st, ast.Assign) and len(st.targets) == 1
+                    and isinstance(st.targets[0], ast.Name) and st.targets[0].id == call.id]
+            call = defs[0] if len(defs) == 1 else None
+        if not isinstance(call, ast.Call):
+            return None
+        try:
+            h = _is_private_helper_call(f, call)
+        except Exception:
+            h = None
+        if h is None or not h.is_generator:
+            return None
+        # the flags are handed on under their own names (positionally or by keyword)
+        off = 1 if h.has_self else 0
+        for i, a in enumerate(call.args):
+            if isinstance(a, ast.Name) and a.id in ("children", "siblings", "parents", "recursive") and (i + off >= len(h.params) or h.params[i + off] != a.id):
+                return None
+        for k in call.keywords:
+            if isinstance(k.value, ast.Name) and k.value.id in ("children", "siblings", "parents", "recursive") and k.arg != k.value.id:
+                return None
+        gens.add(h.qualname)
+        gen = h
+    return gen if len(gens) == 1 else None
+
+
+def _found_objects_rule(rep, f, rule, relation_flags, as_generator=False):
+    if not as_generator:
+        dg = _delegated_generator(f)
+        if dg is not None:
+            # find_related / find written as a lazy private generator whose first element (or whole list) is handed out: the objects
+            # handed out are what the generator yields
+            rep.saw_function(dg)
+            return _found_objects_rule(rep, dg, rule, relation_flags, as_generator=True)
     g = build_cfg(f)
     x = _X(Expander(f, g))
     me = f.params[0]
@@ -510,13 +603,17 @@ def _found_objects_rule(rep, f, rule, relation_flags):
             results.append((n, x.text(n.ast.value.args[0], n), "collect"))
         if n.kind == "stmt" and isinstance(n.ast, ast.AugAssign) and unparse(n.ast.target) in acc:
             results.append((n, x.text(n.ast.value, n), "collect"))
+        if as_generator and n.kind == "stmt" and isinstance(n.ast, ast.Expr) and isinstance(n.ast.value, (ast.Yield, ast.YieldFrom)) \
+                and n.ast.value.value is not None:
+            results.append((n, x.text(n.ast.value.value, n), "yield"))
     rep.floor(rule, len(results), 2, "objects handed out by %s" % f.name)
     child = ("EACH(%s._sections)" % me, "EACH(%s.sections)" % me)
     comp_loops = 0
     for n, t, how in results:
         # first match / all matches written as a comprehension over the own children:  next((s for s in <own> if _matches(s, ..)), None)
         # and  list(<the same>) [or None]  /  [s for s in <own> if _matches(s, ..)] [or None]
-        ve = x.expand(n.ast.value if n.kind == "return" else n.ast.value.args[0] if isinstance(n.ast, ast.Expr) else n.ast.value, n)
+        ve = x.expand(n.ast.value.value if how == "yield" else n.ast.value if n.kind == "return" else n.ast.value.args[0] if isinstance(n.ast, ast.Expr)
+                      else n.ast.value, n)
         core = ve.values[0] if isinstance(ve, ast.BoolOp) and isinstance(ve.op, ast.Or) and len(ve.values) == 2 \
             and isinstance(ve.values[1], ast.Constant) and ve.values[1].value is None else ve
         comp = None
@@ -585,7 +682,7 @@ def _found_objects_rule(rep, f, rule, relation_flags):
         loops = [None]          # the scan of the own children is the comprehension
     rep.check(len(loops) == 1, rule, "%s inspects the own children" % f.name, "one loop over self._sections", "%s does not loop over its own child sections" % f.name, f.where)
     finals = [n for n in g.nodes if n.kind == "return" and n.ast.value is not None and _only_acc(n.ast.value, acc)]
-    rep.check(bool(finals) or not acc, rule, "%s returns the collected matches" % f.name, "ok", "%s collects matches but never returns them" % f.name, f.where)
+    rep.check(bool(finals) or not acc or as_generator, rule, "%s returns the collected matches" % f.name, "ok", "%s collects matches but never returns them" % f.name, f.where)
 
 
 def _ancestor_local(g, n, name, me, depth=0):
